@@ -1,6 +1,7 @@
 package nc
 
 import (
+	"go/constant"
 	"go/token"
 	"go/types"
 	"sort"
@@ -221,3 +222,41 @@ func isNillable(t types.Type) bool {
 	}
 	return false
 }
+
+// LenZeroFact: what a branch outcome says about the length of a list: +1 "len(l) == 0", -1 "len(l) >= 1",
+// 0 nothing, for the list l that `is` accepts (the argument of the len call). Every spelling is accepted:
+// len(l) == 0, 0 == len(l), len(l) < 1, len(l) <= 0, !(len(l) > 0), len(l) != 0 taken false, ... (a length is
+// never negative).
+func LenZeroFact(cond ssa.Value, outcome bool, is func(ssa.Value) bool) int {
+	x, y, op, ok := CmpFact(cond, outcome)
+	if !ok {
+		return 0
+	}
+	c, isCall := x.(*ssa.Call)
+	if !isCall {
+		return 0
+	}
+	b, isB := c.Call.Value.(*ssa.Builtin)
+	if !isB || b.Name() != "len" || len(c.Call.Args) != 1 || !is(c.Call.Args[0]) {
+		return 0
+	}
+	k, isC := y.(*ssa.Const)
+	if !isC || k.Value == nil {
+		return 0
+	}
+	n, exact := constInt(k)
+	_ = constant.Int
+	if !exact {
+		return 0
+	}
+	switch {
+	case op == token.EQL && n == 0, op == token.LEQ && n == 0, op == token.LSS && n == 1:
+		return 1
+	case op == token.NEQ && n == 0, op == token.GTR && n == 0, op == token.GEQ && n == 1:
+		return -1
+	case op == token.GTR && n > 0, op == token.GEQ && n > 1, op == token.EQL && n > 0:
+		return -1
+	}
+	return 0
+}
+
